@@ -39,7 +39,17 @@ func (env *SpecEnv) inOld() *SpecEnv {
 		return env
 	}
 	n := *env
-	n.st = env.old
+	// typing facts learned while reading the old state are true facts: record
+	// them on the current path
+	oldView := *env.old
+	sink := env.st
+	for sink.assumeTo != nil {
+		sink = sink.assumeTo
+	}
+	if sink != env.old {
+		oldView.assumeTo = sink
+	}
+	n.st = &oldView
 	if env.oldVar != nil {
 		n.vars = make(map[string]Value, len(env.vars))
 		for k, x := range env.vars {
